@@ -22,8 +22,9 @@ class BudgetExceeded(BaseException):
 class Fault(object):
     """What to do at a transport call.  kind: 'timeout' | 'reset' | 'pipe' | 'eof'"""
 
-    def __init__(self, kind):
+    def __init__(self, kind, read_dt=None):
         self.kind = kind
+        self.read_dt = read_dt      # eof only: virtual seconds per empty read (a closed socket returns b'' at once: thousands of empty reads fit into one read timeout)
 
 
 def _spin_reset():
@@ -201,7 +202,7 @@ class Core(object):
         self.read_timeouts.append(("r", timeout))
         if f is not None:
             if f.kind == "eof":
-                self.clock.advance(STALL_READ_DT)
+                self.clock.advance(f.read_dt if f.read_dt is not None else STALL_READ_DT)
                 return b""
             self._raise_fault(f, "bulk_read", timeout)
         if not self.connected:
